@@ -237,6 +237,21 @@ func c14GenCfg(rng *verifkit.Rand, thorough bool) c14RunCfg {
 	return cfg
 }
 
+// c14SlowSSHCfg: a run without cloud faults in which every VM is slow over
+// SSH and the queue is polled often: many crunch-run starts race with a run
+// probe whose "--list" snapshot predates the new process and whose answer
+// is processed after "--detach" has returned.
+func c14SlowSSHCfg(rng *verifkit.Rand) c14RunCfg {
+	cfg := c14RunCfg{Types: rng.Range(1, 2), K: 3000, KFault: 2500, WatchdogSecs: 150, PollMs: 5, SlowSSHPct: 100}
+	cfg.Containers = rng.PickInt(50, 70)
+	cfg.Seed = rng.Uint64()
+	perm := rng.Perm(cfg.Containers)
+	for i := 0; i < 4; i++ {
+		cfg.Actions = append(cfg.Actions, c14Action{Kind: rng.PickStr("cancel", "prio0"), Victim: perm[i]})
+	}
+	return cfg
+}
+
 // ---------------------------------------------------------------- world
 
 type c14ProcKey struct {
